@@ -580,6 +580,13 @@ pub fn modes_restore() -> Vec<GenCfg> {
     churn.len = (100, 300);
     churn.max_resting = 6;
     v.push(churn);
+    let mut zz = mk("undisplayed-then-amended-up", TsMode::Increasing, [24, 36, 3, 30, 3, 3, 1, 0, 0], false, false);
+    zz.kind_w = [2, 7, 1, 0, 0, 0, 2];
+    zz.zero_pct = 35;
+    zz.hid_zero_pct = Some(10);
+    zz.max_resting = 6;
+    zz.len = (10, 50);
+    v.push(zz);
     let mut burst = mk("cancel-burst", TsMode::NonMonotone, [46, 1, 44, 2, 0, 0, 6, 0, 0], false, true);
     burst.len = (160, 400);
     burst.max_resting = 5;
@@ -619,7 +626,7 @@ pub fn c11() -> SeqCheck {
             };
             // a continuation, generated online against the original, replayed on the restored twin
             let mut ccfg = GenCfg::base("continuation");
-            ccfg.op_w = [15, 45, 10, 12, 3, 3, 3, 0, 0];
+            ccfg.op_w = [15, 40, 8, 24, 3, 3, 3, 0, 0];
             ccfg.reuse_ids = false;
             let mut g = hseq::Gen::new(ccfg, Rng::new(rng.next_u64()));
             g.price = tr.price;
